@@ -379,7 +379,11 @@ impl Module for M {
                 let w = r.size.width as i64;
                 let h = r.size.height as i64;
                 let o64 = o as i64;
-                if w + 2 * o64 > 0 && h + 2 * o64 > 0 && w > 0 && h > 0 {
+                // A side of zero length can grow (o >= 0) but nothing can be removed from it.
+                if w + 2 * o64 > 0 && h + 2 * o64 > 0 && (o64 >= 0 || (w > 0 && h > 0)) {
+                    if w == 0 || h == 0 {
+                        ctx.count("offset:zero-side-grown");
+                    }
                     ctx.nontrivial(op);
                     ctx.count("offset:nondegenerate");
                     let want = Rectangle::new(
